@@ -86,6 +86,11 @@ func body(c cfg) func() {
 		conf := nbio.Config{Name: "c01", NPoller: 1, ReadBufferSize: 16, BodyAllocator: tr}
 		c.mode.Apply(&conf)
 		g := nbio.NewEngine(conf)
+		if len(c.w2) > 0 {
+			// nbio calls this handler from inside Write/Writev/flush: with two writers a window
+			// opened around the callback would let the calls interleave
+			g.OnWrittenSize(func(_ *nbio.Conn, _ []byte, n int) {})
+		}
 		if err := g.Start(); err != nil {
 			vsched.Fail("harness|engine start: %v", err)
 			return
